@@ -235,7 +235,9 @@ def run(chk):
     chk.cov['rule'] = ('generated module descriptions (all item kinds, operand forms, boundary immediates, finite floats of the three '
                       'formats, strings over all byte values, aliases, block args, hard-reg globals, several modules per context) built '
                       'through the API by harness/c11_io.c; checked: MIR_scan_string accepts MIR_output text, the re-printed text is '
-                      'identical (or identical up to the scanner\'s label renaming), a second round is a fixpoint, execution agrees; the '
+                      'identical (or identical up to the scanner\'s label renaming), the scanned module is structurally the printed one (every '
+                      'operand field incl. alias / nonalias, signatures with block sizes, data elements, read through the API), a second '
+                      'round is a fixpoint, execution agrees; the '
                       'extracted Coq printer equals MIR_output byte for byte and the extracted Coq scanner predicts the re-printed text. '
                       'non-trivial = at least 3 insns/data items; distinct by description text')
     for c in gen[:3]:
@@ -259,7 +261,7 @@ def replay(chk, path):
     r1, rm = run_cases(exes, [case])
     bad, info = judge(case, r1[0], rm[0])
     print('case:', case)
-    for k in ('build', 'SC', 'T2', 'TN2', 'SC2', 'T3', 'X0', 'X2', 'FR0', 'FR2', 'CRASH'):
+    for k in ('build', 'SC', 'T2', 'S2', 'TN2', 'SC2', 'T3', 'X0', 'X2', 'FR0', 'FR2', 'CRASH'):
         v = r1[0].get(k, '-')
         print('  impl.%s = %s   model.%s = %s' % (k, v[:100], k, rm[0].get(k, '-')[:100]))
     for s, w in bad:
